@@ -195,6 +195,14 @@ GetFixed ==
     /\ hist' = Append(hist, Outcome("get", MaxStep, FALSE))
     /\ UNCHANGED <<pc, target, fail, fired, pre, origin, restarted, stale>>
 
+\* get_state() of a Gibbs object whose compute() failed: whatever it answers (an intermediate state, or an error), asking
+\* must not change what the repeated compute() and later get_state() calls give
+GetPartial ==
+    /\ pc = "idle" /\ NCalls < MaxCalls /\ Kind = "gibbs" /\ fired /\ step < MaxStep
+    /\ UNCHANGED <<step, net, rec>>
+    /\ hist' = Append(hist, Outcome("get", MaxStep, FALSE))
+    /\ UNCHANGED <<pc, target, fail, fired, pre, origin, restarted, stale>>
+
 Init ==
     /\ step = -1 /\ net = << >> /\ rec = << >> /\ pc = "idle" /\ target = 0
     /\ fail \in FailSet /\ fired = FALSE /\ stale = 0
@@ -204,7 +212,7 @@ Init ==
 Next ==
     \/ \E t \in 0..MaxStep : Begin(t)
     \/ IterOk \/ IterFail \/ End \/ Get \/ Peek \/ Restart
-    \/ ComputeFixed \/ GetFixed \/ ComputeFixedFail
+    \/ ComputeFixed \/ GetFixed \/ ComputeFixedFail \/ GetPartial
 
 Spec == Init /\ [][Next]_vars
 
